@@ -662,6 +662,12 @@ def goCallee (bs : List String) (f : Imm) (args : List Imm) (ty : Ty) : List Str
     else [vn x]
   | _ => []
 
+/-- the conversion `dyn_data_expr` calls when a numeric literal becomes a trait object -/
+def dynDataCallee (e : Imm) : List String :=
+  match e with
+  | .prim _ ty => (convName ty).toList
+  | _ => []
+
 mutual
 /-- Go names of the top-level callees occurring in an expression (`bs` = the source variables in scope: a call through
     a local is not a callee in this sense) -/
@@ -671,7 +677,7 @@ def calleesC (bs : List String) : CExpr → List String
   | .while c b _ => calleesA bs c ++ calleesA bs b
   | .matchE _ arms d _ => calleesArms bs arms ++ calleesD bs d
   | .go e _ => (match e.ty with | .struct n => [vn (applyFnName n)] | _ => [])
-  | .toDyn tr forTy _ _ => [dynVtableCtorName tr forTy]
+  | .toDyn tr forTy e _ => dynVtableCtorName tr forTy :: dynDataCallee e
   | _ => []
 def calleesA (bs : List String) : AExpr → List String
   | .ret c => calleesC bs c
@@ -883,7 +889,9 @@ def checkFns (env : Env) (file : AFile) (G : List String) : St → List AFn → 
 
 /-- Go functions the runtime helpers of stage (a) call by name (`Go.Sem`'s builtin table gives them
     their meaning only when the file does not define them) -/
-def reservedGoNames : List String := ["fmt.Sprintf", "fmt.Print", "fmt.Println", "append", "len", "int32"]
+def reservedGoNames : List String :=
+  ["fmt.Sprintf", "fmt.Print", "fmt.Println", "append", "len", "int32", "int8", "int16", "int64", "uint8", "uint16", "uint32",
+   "uint64"]
 
 /-- file-level conditions -/
 def fileOK (env : Env) (file : AFile) (n : Nat) : Bool :=
